@@ -256,8 +256,10 @@ def models(tier, tmpdir):
             sp = dict(sp0, workplaces=[dict(wp, cap="inf") for wp in sp0["workplaces"]])  # a workplace without space limit
             out.append((sp, {"rule": "TSLACK", "max_time": 12}, "infinite-capacity"))
     out.append((F.shared_id_spec(), {"rule": "TSLACK", "max_time": 12}, "worker-and-facility-ids-coincide"))
+    tz = dict(F.with_teams({"tasks": [{"name": "T0", "work": 2.0}, {"name": "T1", "work": 1.0}], "links": [[0, 1, "FS"]]}, "POOL1"), init_tz_hours=9)
+    out.append((tz, {"rule": "TSLACK", "max_time": 10}, "timezone-aware-start"))
     for sp in F.scale_specs():
-        if sp["label"] in ("scale:wide12", "scale:layers3x4", "scale:8components"):
+        if sp["label"] in ("scale:wide12", "scale:layers3x4", "scale:8components", "scale:long-unsorted-calendars"):
             out.append((sp, {"rule": "TSLACK", "max_time": F.seq_bound(sp) + 10, "absence": [2, 3]}, sp["label"]))
     for sp in F.same_name_task_specs()[:2]:
         out.append((sp, {"rule": "TSLACK", "max_time": 14}, "same-name"))
